@@ -59,11 +59,12 @@ def run(ctx):
                       " config " + json.dumps(v["row"]["cfg"]),
                       ctx.save_replay("gate-" + v["key"], v), key=v["key"])
     # 2b. the state-changing rows once more over names that end in #ephemeral (valid names; the '#' must survive the trip
-    #     to every nsqd and nsqlookupd)
+    #     to every nsqd and nsqlookupd), with identities spelt as distinguished names (alice = "CN=alice,OU=eng", mallory =
+    #     "OU=eng": commas in the admin list, a non-admin whose name is a piece of an admin's)
     if not ctx.replay:
         rep2 = os.path.join(ctx.scratch, "gate-report-eph.json")
         rc, out, err = ctx.run_harness(["gate-replay", "--tlc-out", tlc_out, "--report", rep2, "--parallel", 8,
-                                        "--name-suffix", "#ephemeral", "--mut-only"], timeout=3000, name="admin")
+                                        "--name-suffix", "#ephemeral", "--mut-only", "--dn-identities"], timeout=3000, name="admin")
         if rc == 2 or not os.path.exists(rep2):
             raise Inconclusive("gate-replay (#ephemeral names): " + out[-2000:] + err[-4000:])
         R2 = json.load(open(rep2))
